@@ -9,6 +9,7 @@ generator wrote.
 from __future__ import annotations
 
 import itertools
+import re
 
 from vf.ref import obis_ref
 
@@ -310,6 +311,13 @@ def run(shard, ctx):
         text = obis_ref.reduced(groups)
         check_wellformed(groups, text, ctx, "reduced")
         ctx.case("r" + text)
+        if i % 3 == 0:
+            # the same code with leading zeros in some groups ('1-0:1.08.0'): the digits of a group are a number
+            # (at most three digits per group, which is as wide as a group 0..255 is ever written)
+            padded = re.sub(r"\d+", lambda m: ("0" * rng.choice((0, 0, 1, 2)) + m.group(0))[-max(3, len(m.group(0))):] if len(m.group(0)) < 3 else m.group(0), text)
+            if padded != text:
+                check_wellformed(groups, padded, ctx, "reduced")
+                ctx.count("codes_written_with_leading_zeros")
         ctx.count(f"presence_{int(pa)}{int(pb)}{int(pe)}{int(pf)}")
         g6 = (gval(rng), gval(rng), gval(rng), gval(rng), gval(rng), gval(rng) if rng.random() < 0.8 else None)
         t6 = obis_ref.dotted(g6[:5]) + ("." + str(g6[5]) if g6[5] is not None else ".")
